@@ -114,6 +114,12 @@ class CallableModel(Model, collections.abc.Callable):
 
     def __call__(self, *args, **kwargs) -> Tensor:
         if self.lp_needs_update:
-            self.lp = self._call(*args, **kwargs)
+            # clear the flag first: a change notification received while _call
+            # runs (e.g. a fresh draw) must not be lost
             self.lp_needs_update = False
+            try:
+                self.lp = self._call(*args, **kwargs)
+            except Exception:
+                self.lp_needs_update = True
+                raise
         return self.lp
